@@ -24,6 +24,10 @@ type Case struct {
 	Expr      int    `json:"expr"`                // index into the expression table of the carrier
 	UserBinds string `json:"user_binds"`          // how the using module M2 binds prefix x: other | none | same
 	Companion int    `json:"companion,omitempty"` // 1/2: M2 also writes the same expression on a leaf of its own, before/after the arriving one
+	// SubClash: M1 and M2 each include a further submodule that binds the prefixes x and y to other modules than the
+	// including module does (1), those submodules in turn including one more with yet another binding (2); the bindings
+	// of an included submodule are its own and must not show in the module
+	SubClash int `json:"subclash,omitempty"`
 }
 
 type exprSpec struct {
@@ -92,6 +96,7 @@ func genCase(t *rapid.T) Case {
 	if companionPlacements[c.Placement] {
 		c.Companion = rapid.IntRange(0, 2).Draw(t, "companion")
 	}
+	c.SubClash = []int{0, 0, 1, 2}[rapid.IntRange(0, 3).Draw(t, "subclash")]
 	return c
 }
 
@@ -251,6 +256,21 @@ func build(c Case) (mods []*sg.Mod, definer string, binds map[string]string, use
 		}
 		mods = append(mods, sub)
 		definer = "m1-sub"
+	}
+	if c.SubClash > 0 {
+		for _, m := range []*sg.Mod{m1, m2} {
+			clash := &sg.Mod{Name: m.Name + "-zclash", Prefix: m.Prefix, BelongsTo: m.Name, Imports: []sg.Import{{Mod: "mb", Prefix: "y"}, {Mod: "mc", Prefix: "x"}}}
+			if m == m1 {
+				clash.Imports = []sg.Import{{Mod: "mb", Prefix: "x"}, {Mod: "ma", Prefix: "y"}}
+			}
+			m.Includes = append(m.Includes, clash.Name)
+			mods = append(mods, clash)
+			if c.SubClash == 2 {
+				deeper := &sg.Mod{Name: m.Name + "-zdeeper", Prefix: m.Prefix, BelongsTo: m.Name, Imports: []sg.Import{{Mod: "mc", Prefix: "y"}, {Mod: "mb", Prefix: "x"}, {Mod: "ma", Prefix: "zz"}}}
+				clash.Includes = []string{deeper.Name}
+				mods = append(mods, deeper)
+			}
+		}
 	}
 	if c.Companion != 0 && companionPlacements[c.Placement] {
 		// the same text written in M2 itself means what M2's imports say
